@@ -14,6 +14,12 @@ CHECKS = {
                 text="the constructor's stored checkpoint is proved to be the loop-head state sigma(k) of the uninterrupted run (same geometry spec function), "
                      "the loop's entry obligations are proved from it; equal states give equal continuations",
                 note=TRUST),
+    "C02": dict(level="proof", technique="contract-based deductive verification, structural induction through layer contracts (AST->SMT, z3+cvc5); frame check of constructibility; bounded nested stacks",
+                text="every layer (KDSubset, KDConcatDataset, KDWrapper, getall helpers) is verified once against the abstract contract of the layer below and "
+                     "re-establishes it with its index map composed in (negative indices, bisect over cumulative sizes incl. zero-length parts, balanced round-robin, "
+                     "bulk == per-sample, introspection, dispose/worker hooks reach every child); all obligations discharged; "
+                     "constructibility under the installed torch is a frame obligation",
+                note=TRUST + "; accessor-name dispatch is verified for one representative name per prefix class; int(a/b) treated as exact truncation"),
     "C12": dict(level="proof", technique="contract-based deductive verification (AST->SMT, z3+cvc5) over integer-sequence terms; frame check for rank independence; bounded oracle",
                 text="per-rank stream == strided slice of one global draw keyed by seed+epoch, length == len(sampler), repeats occupy consecutive slots: "
                      "postconditions at the yield sites of DistributedSampler/RandomSampler/WeightedSampler.__iter__, lengths of ClassBalancedSampler, all discharged; "
